@@ -127,6 +127,12 @@ const _: () = {
         }
     }
 
+    impl Schema for bool {
+        fn schema() -> impl Into<schema::SchemaRef> {
+            bool()
+        }
+    }
+
     impl Schema for f32 {
         fn schema() -> impl Into<schema::SchemaRef> {
             number().format("float")
